@@ -310,8 +310,6 @@ class MessageAssembler:
         self.packet_count = 0
 
     def on_pdu(self, pdu: bytes) -> None:
-        self.packet_count += 1
-
         # Drop empty PDUs sent by remote — accessing pdu[0] below would
         # raise IndexError, propagating up to the L2CAP read loop and
         # tearing down the channel. Same class as #912 (ATT empty PDU).
@@ -360,6 +358,7 @@ class MessageAssembler:
             self.transaction_label = transaction_label
             self.signal_identifier = SignalIdentifier(pdu[1] & 0x3F)
             self.message_type = message_type
+            self.packet_count = 1
 
             if packet_type == Protocol.PacketType.SINGLE_PACKET:
                 self.message = pdu[2:]
@@ -371,7 +370,7 @@ class MessageAssembler:
             Protocol.PacketType.CONTINUE_PACKET,
             Protocol.PacketType.END_PACKET,
         ):
-            if self.packet_count == 0:
+            if self.message is None:
                 logger.warning('unexpected continuation')
                 return
 
@@ -390,6 +389,7 @@ class MessageAssembler:
                 return
 
             self.message = (self.message or b'') + pdu[1:]
+            self.packet_count += 1
 
             if packet_type == Protocol.PacketType.END_PACKET:
                 if self.packet_count != self.number_of_signal_packets:
